@@ -27,6 +27,7 @@ type Instance struct {
 	Desc    string   `json:"desc"`
 	Text    string   `json:"text,omitempty"`
 	Expect  []string `json:"-"` // reach labels that must be hit on some path
+	Nondet  bool     `json:"-"` // native behaviour is schedule dependent: skip trace validation
 }
 
 // Family is everything one property check runs.
